@@ -41,7 +41,7 @@ def FUNCTIONS():
           TE.TestExecutor._execute_test_teardown, PD.PhaseDescriptor.__call__, TD.Test.execute]
 
 
-BOUNDS = {'plugs': '3 instrumented plug classes A, B, C; phases p0(a=A), p1(b=B, a2=A), p2(c=C); test_start none / uses A / uses A and raises',
+BOUNDS = {'plugs': '3 instrumented plug classes A, B, C; phases p0(a=A), p1(b=B, a2=A), p2(c=C); test_start none / uses A / uses A and raises / uses no plug',
           'faults': 'constructor of class k raises (k symbolic or none); tearDown of each class: ok / raises / hangs (with plug_teardown_timeout_s set); one phase deviates with any of 13 behaviour kinds'}
 ASSUMPTIONS = ['a hanging tearDown is modelled by the tear-down thread staying alive until kill()']
 OUTSIDE = ['real hanging threads / ThreadTerminationError delivery (C12)', 'remote plugs, placeholder substitution', 'abort during plug construction (C04)']
@@ -67,14 +67,13 @@ class _Inst(base_plugs.BasePlug):
       raise PlugCtorError('constructor of plug %d failed' % self.IDX)
     LOG.append(('ctor', self.IDX, id(self)))
 
-  @property
-  def _verif_hang(self):
-    return FAULT['td'][self.IDX] == 2
-
   def tearDown(self):
     LOG.append(('td', self.IDX, id(self)))
     if FAULT['td'][self.IDX] == 1:
       raise PlugTearDownError('tearDown of plug %d failed' % self.IDX)
+
+
+H.HANG_TEST[0] = lambda plug: isinstance(plug, _Inst) and FAULT['td'][plug.IDX] == 2
 
 
 class PA(_Inst):
@@ -113,6 +112,12 @@ def _ts_bad(test, a):
   raise H.PhaseError('test_start failed')
 
 
+def _ts_noplug(test):
+  LOG.append(('test_start', -1, None, tuple(e[1] for e in LOG if e[0] == 'ctor')))
+  test.test_record.dut_id = 'dut'
+
+
+TS_NOPLUG = PD.PhaseDescriptor.wrap_or_copy(_ts_noplug)
 TS_OK = htf.plug(a=PA)(PD.PhaseDescriptor.wrap_or_copy(_ts_ok))
 TS_BAD = htf.plug(a=PA)(PD.PhaseDescriptor.wrap_or_copy(_ts_bad))
 
@@ -127,10 +132,10 @@ TEST.add_output_callbacks(_cb)
 TREE = [('phase', 'p0', {'measured': False}), ('phase', 'p1', {'measured': False}), ('phase', 'p2', {'measured': False})]
 
 
-@cond(timeout=1200, split={'ts': range(3), 'cf': range(-1, 3)})
+@cond(timeout=1200, split={'ts': range(4), 'cf': range(-1, 3)})
 def c_plug_lifecycle(ts: int, cf: int, ta: int, tb: int, tc: int, i1: int, v1: int) -> bool:
   """
-  pre: 0 <= ts <= 2 and -1 <= cf <= 2
+  pre: 0 <= ts <= 3 and -1 <= cf <= 2
   pre: 0 <= ta <= 2 and 0 <= tb <= 2 and 0 <= tc <= 2
   pre: 0 <= i1 <= 2 and 0 <= v1 <= 12
   post: _
@@ -145,7 +150,9 @@ def c_plug_lifecycle(ts: int, cf: int, ta: int, tb: int, tc: int, i1: int, v1: i
     H.SCRIPT.beh['p%d' % k] = [kind[0], 0]
   CONF.load(plug_teardown_timeout_s=1)
   try:
-    ret = TEST.execute(test_start=(None, TS_OK, TS_BAD)[ts])
+    ret = TEST.execute(test_start=(None, TS_OK, TS_BAD, TS_NOPLUG)[ts])
+  except H.WouldHangForever:
+    return False          # an abandoned tearDown must not block the executor
   finally:
     CONF.reset()
     FAULT['ctor'] = -1
@@ -171,7 +178,10 @@ def c_plug_lifecycle(ts: int, cf: int, ta: int, tb: int, tc: int, i1: int, v1: i
           return False
     if e[0] == 'test_start':
       # only the plugs test_start needs exist while test_start runs
-      if e[3] != (0,) or inst.get(0) != e[2]:
+      if e[1] == -1:
+        if e[3] != ():
+          return False
+      elif e[3] != (0,) or inst.get(0) != e[2]:
         return False
   # every constructed instance has tearDown called exactly once (a hanging one is abandoned once) ...
   hang_names = [e[1] for e in H.SCRIPT.log if e[0] == 'teardown-hang']
@@ -192,7 +202,7 @@ def c_plug_lifecycle(ts: int, cf: int, ta: int, tb: int, tc: int, i1: int, v1: i
     return False
   # outcome: a failing / abandoned tearDown changes nothing; a constructor failure gives ERROR and no further phase
   outcome = [e for e in LOG if e[0] == 'callback'][0][1]
-  ts_needs = (ts != 0)
+  ts_needs = ts in (1, 2)
   ctor_fails_for_ts = ts_needs and cf == 0
   phases_ran = [e[1] for e in LOG if e[0] == 'phase']
   if ctor_fails_for_ts:
